@@ -223,6 +223,38 @@ def run(F, R, tier):
                     if v_ is not None and not (isinstance(v_, sym.V) and v_.name == "None"):
                         r2.require(SR.derives(v_, ep[0].result.t), (fn, "emitted-payload"), "the payload kept for emission is not the one that was signed: %s" % sym.fmt(sym.term(v_)))
         r2.site("%s: SigningData::new(encode_if_b64(payload, %s.protected), %s.protected): %s" % (L.short(fn), rec, rec, okj))
+    # the JSON serializations write the very payload that was signed: the kept text as it is, or the checked UTF-8 view of the kept
+    # bytes (an error for bytes that are not UTF-8 — never a replacement character, which would decode to a payload nobody signed)
+    for fn, kept in ((ENC + "::FlattenedJwsEncoder::into_jws", "processed_payload"), (ENC + "::GeneralJwsEncoder::into_jws", "partially_processed_payload")):
+        if not r2.anchor(F.hir(fn), fn):
+            continue
+        tab = SR.Table(F, fn, opaque=r"from_utf8(_lossy|_unchecked)?$|to_json$|into_signature$", rule=r2)
+        KEPT = SR.fld(kept)
+        rows_ = set()
+        for q in tab.ok():
+            tj = q.calls(r"to_json$")
+            out = tj[0].args[0] if len(tj) == 1 else None
+            out = out if isinstance(out, sym.St) else None
+            if not r2.require(out is not None and "payload" in out.f, (fn, "payload-member"), "expected one to_json of a structure with a `payload` member on an accepting path"):
+                continue
+            pv = out.f["payload"]
+            if isinstance(pv, sym.V) and pv.name == "None":
+                det = SR.truth_of(q, lambda t__: t__ == SR.fld("detached"))
+                r2.require(any(c_ is True for (_t, c_) in det), (fn, "payload-member"), "the payload member is left out on a path that is not the detached one: %s" % q.describe())
+                rows_.add("detached → None")
+                continue
+            inner = pv.fields[0] if isinstance(pv, sym.V) and pv.name == "Some" and pv.fields else pv
+            t_ = sym.term(inner)
+            fu = [e for e in q.calls(r"from_utf8") if q.succeeded(e) is True]
+            if SR.pure(t_, KEPT, conv=re.compile(r"as_deref$|as_ref$|deref$|borrow$")):
+                rows_.add("kept text as it is")
+                continue
+            ok_ = (len(fu) == 1 and re.search(r"(^|::)str::(converts::)?from_utf8$", re.sub(r"<[^<>]*>", "", fu[0].fn or "")) is not None
+                   and SR.pure(fu[0].args[0], KEPT, conv=re.compile(r"as_deref$|as_ref$|deref$|borrow$")) and SR.pure(t_, fu[0].result.t, conv=re.compile(r"^$a")))
+            r2.require(ok_, (fn, "payload-member"), "the payload member written is not the kept payload itself or its checked UTF-8 view: %s" % sym.fmt(t_))
+            if ok_:
+                rows_.add("from_utf8(kept bytes) ✓")
+        r2.site("%s: payload member ← %s" % (L.short(fn), sorted(rows_)))
     for ty, field in ((ENC + "::CompactJwsEncoder", "signing_input"), (UTL + "::SigningData", "signing_input"), (DEC + "::JwsValidationItem", "signing_input")):
         for (p, bi, kind, d) in F.field_writes(ty, field):
             r1.fail((p, "writes-signing_input"), "%s.signing_input is written after construction in %s" % (L.short(ty), L.short(p)))
@@ -256,7 +288,7 @@ def run(F, R, tier):
                 rowsp.add("false→NotEncoded")
         r2.site("encode_if_b64: %s" % sorted(rowsp))
         r2.require(len(rowsp) == 2 or not tabp.paths, (efn, "polarity"), "encode_if_b64 does not have the two rows b64 true → encoded / false → as is")
-    r2.floor(7)
+    r2.floor(9)
 
     # ------------------------------------------------------------------ R3 charset
     r3 = R.rule("C08-R3", "T7", "CharSet::Default = %x20-2D / %x2F-7E, UrlSafe = unreserved characters; '.' is rejected for every unencoded attached compact payload")
@@ -447,7 +479,7 @@ def run(F, R, tier):
     r7 = R.rule("C08-R7", "T2", "what the encoders emit decodes and verifies to what was signed only while the decoder reads b64 and alg from the protected header it was given, "
                 "hands back the payload by the same b64 rule the encoder applied (C01-R2/R4), and verify_jws resolves the signing method by the document's resolution "
                 "rules in the configured scope (C04-R5/R7)")
-    L.depends_on(r7, F, tier, ["C01-R2", "C01-R4"], "the decoder undoes exactly the payload encoding the encoder chose from the protected b64")
+    L.depends_on(r7, F, tier, ["C01-R1", "C01-R2", "C01-R4"], "the decoder undoes exactly the payload encoding the encoder chose from the protected b64")
     L.depends_on(r7, F, tier, ["C04-R5", "C04-R7"], "verify_jws finds the method create_jws signed with, and only within the configured scope")
     r7.floor(2)
 
